@@ -25,11 +25,12 @@
     equality is TESTED on every run: checks/C05.py evaluates implementation, model and
     specification on the same generated cases (and an exhaustive axis x test x predicate family).
 
-    The statement is moreover false where the dom's data model departs from section 5 (each with a
-    witness below and a classifier in checks/xpath_common.py): the document-type node is a child
-    of the root (D16); attribute and namespace nodes have no parent (D22b); the value items of an
-    attribute are its children (D55); DTD-default attributes and namespace nodes have order key 0
-    (D19); lang() compares for equality and reads any attribute named lang (D17). *)
+    The statement is moreover false where the dom's data model departs from section 5 (with
+    witnesses below and a classifier in checks/xpath_common.py): DTD-default attributes and
+    namespace nodes have order key 0 and namespace nodes have no owner element (D19).  Repaired
+    departures, now Examples of the equality: the document-type node was a child of the root (D16),
+    attributes had no parent (D22b) and had their value items as children (D55), lang() compared
+    for equality and read any attribute named lang (D17). *)
 From Coq Require Import List NArith Bool Sorting.Sorted.
 From XmlRs Require Import Base.CPred Model.XPathAst Model.XDoc Model.XDocCheck Model.XPathEval.
 From XmlRs Require Import Spec.XPath10.
@@ -55,10 +56,10 @@ Proof. intros doc l Hinv. exact (canon_agrees doc Hinv l). Qed.
 
 (** rung 1, navigation *)
 Theorem C05_rung1_axis_child_partial :
-  forall (doc : xdoc) (i : node), DocInv doc -> SpecShape doc -> valid doc i -> is_container doc i ->
-    axis_nodes doc (AxisName AxChild) i = Ok (child_nodes doc i) /\
-    s_axis doc AxChild (Row i) = map Row (child_nodes doc i).
-Proof. intros doc i Hinv Hs. exact (axis_child_agrees doc Hs i). Qed.
+  forall (doc : xdoc) (i : node), SpecShape doc -> valid doc i ->
+    axis_nodes doc (AxisName AxChild) i = Ok (xchildren doc i) /\
+    s_axis doc AxChild (Row i) = map Row (xchildren doc i).
+Proof. intros doc i Hs. exact (axis_child_agrees doc Hs i). Qed.
 
 Theorem C05_rung1_axis_attribute_partial :
   forall (doc : xdoc) (i : node), kind doc i = KElement ->
@@ -72,13 +73,13 @@ Theorem C05_rung1_axis_self_partial :
 Proof. exact axis_self_agrees. Qed.
 
 Theorem C05_rung1_axis_descendant_partial :
-  forall (doc : xdoc) (i : node), DocInv doc -> SpecShape doc -> valid doc i -> kind doc i <> KAttribute ->
+  forall (doc : xdoc) (i : node), DocInv doc -> SpecShape doc -> valid doc i ->
     axis_nodes doc (AxisName AxDescendant) i = Ok (desc doc i) /\
     s_axis doc AxDescendant (Row i) = map Row (desc doc i).
 Proof. intros doc i Hinv Hs. exact (axis_descendant_agrees doc Hinv Hs i). Qed.
 
 Theorem C05_rung1_axis_descendant_or_self_partial :
-  forall (doc : xdoc) (i : node), DocInv doc -> SpecShape doc -> valid doc i -> kind doc i <> KAttribute ->
+  forall (doc : xdoc) (i : node), DocInv doc -> SpecShape doc -> valid doc i ->
     axis_nodes doc (AxisName AxDescendantOrSelf) i = Ok (i :: desc doc i) /\
     s_axis doc AxDescendantOrSelf (Row i) = map Row (i :: desc doc i).
 Proof. intros doc i Hinv Hs. exact (axis_descendant_or_self_agrees doc Hinv Hs i). Qed.
@@ -102,26 +103,29 @@ Example C05_example_refines :
   value_abs (fst (query c05_doc c05_doc_e5 ctx_default)) = spec_query c05_doc [] 0 0 c05_doc_e5.
 Proof. vm_compute. repeat split; reflexivity. Qed.
 
-(** the full statement is false on the faithful model where the dom departs from the data model:
-    <!DOCTYPE r [<!ATTLIST r d CDATA "dv">]><r a="1" xml:lang="en-US"><b>t</b></r> *)
-Theorem C05_refuted_doctype_child_D16 :                 (* /node() *)
-  value_abs (fst (query c05_doc c05_doc_e0 ctx_default)) = Some (SNodes [Row 1; Row 2]%N) /\
-  spec_query c05_doc [] 0 0 c05_doc_e0 = Some (SNodes [Row 2%N]).
-Proof. vm_compute. split; reflexivity. Qed.
-
-Theorem C05_refuted_attribute_parent_D22b :             (* //@a/.. *)
-  value_abs (fst (query c05_doc c05_doc_e1 ctx_default)) = Some (SNodes []) /\
-  spec_query c05_doc [] 0 0 c05_doc_e1 = Some (SNodes [Row 2%N]).
-Proof. vm_compute. split; reflexivity. Qed.
-
-Theorem C05_refuted_attribute_children_D55 :            (* //@a/node() *)
-  value_abs (fst (query c05_doc c05_doc_e2 ctx_default)) = Some (SNodes [Row 5%N]) /\
-  spec_query c05_doc [] 0 0 c05_doc_e2 = Some (SNodes []).
-Proof. vm_compute. split; reflexivity. Qed.
-
-Theorem C05_refuted_lang_D17 :                          (* /r[lang("en")] with xml:lang="en-US" *)
-  value_abs (fst (query c05_doc c05_doc_e4 ctx_default)) = Some (SNodes []) /\
+(** repaired departures from the data model, now equalities (document
+    <!DOCTYPE r [<!ATTLIST r d CDATA "dv">]><r a="1" xml:lang="en-US"><b>t</b></r>): the document type
+    is not a node (D16: /node()), the parent of an attribute is its element (D22b: //@a/..), an
+    attribute has no children (D55: //@a/node()), the content of its element follows an attribute
+    (//@a/following::node()), lang() follows 4.3 (D17: /r[lang("en")]) *)
+Example C05_example_repaired :
+  value_abs (fst (query c05_doc c05_doc_e0 ctx_default)) = spec_query c05_doc [] 0 0 c05_doc_e0 /\
+  spec_query c05_doc [] 0 0 c05_doc_e0 = Some (SNodes [Row 2%N]) /\
+  value_abs (fst (query c05_doc c05_doc_e1 ctx_default)) = spec_query c05_doc [] 0 0 c05_doc_e1 /\
+  spec_query c05_doc [] 0 0 c05_doc_e1 = Some (SNodes [Row 2%N]) /\
+  value_abs (fst (query c05_doc c05_doc_e2 ctx_default)) = spec_query c05_doc [] 0 0 c05_doc_e2 /\
+  spec_query c05_doc [] 0 0 c05_doc_e2 = Some (SNodes []) /\
+  value_abs (fst (query c05_doc c05_doc_e6 ctx_default)) = spec_query c05_doc [] 0 0 c05_doc_e6 /\
+  spec_query c05_doc [] 0 0 c05_doc_e6 = Some (SNodes [Row 10; Row 12]%N) /\
+  value_abs (fst (query c05_doc c05_doc_e4 ctx_default)) = spec_query c05_doc [] 0 0 c05_doc_e4 /\
   spec_query c05_doc [] 0 0 c05_doc_e4 = Some (SNodes [Row 2%N]).
+Proof. vm_compute. repeat split; reflexivity. Qed.
+
+(** the full statement is still false where namespace nodes are involved: they have no owner in the
+    dom (no parent: //namespace::star/..) and no usable order key (D19) *)
+Theorem C05_refuted_namespace_parent_D19 :
+  value_abs (fst (query c05_doc c05_doc_e7 ctx_default)) = Some (SNodes []) /\
+  spec_query c05_doc [] 0 0 c05_doc_e7 = Some (SNodes [Row 2; Row 10]%N).
 Proof. vm_compute. split; reflexivity. Qed.
 
 Theorem C05_refuted_namespace_nodes_D19 :               (* //namespace::* on <r xmlns:p="u"><b/></r> *)
